@@ -183,6 +183,18 @@ func (in *Interp) intBinop(op token.Token, a, b Val, ta, tb types.Type) Val {
 	if pb, ok := b.x.(*Pointer); ok && op == token.ADD {
 		return in.ptrArith(op, pb, a, ta)
 	}
+	if in.ex != nil && len(in.ex.known) > 0 {
+		if t, ok := a.x.(*Term); ok {
+			if v, ok2 := in.ex.known[t]; ok2 {
+				a = Val{c: v}
+			}
+		}
+		if t, ok := b.x.(*Term); ok {
+			if v, ok2 := in.ex.known[t]; ok2 {
+				b = Val{c: v}
+			}
+		}
+	}
 	_, aSym := a.x.(*Term)
 	bx, bSym := b.x.(*Term)
 	if a.x != nil && !aSym || b.x != nil && !bSym {
@@ -198,6 +210,15 @@ func (in *Interp) intBinop(op token.Token, a, b Val, ta, tb types.Type) Val {
 			}
 		} else if sext(b.c, wb) < 0 {
 			in.goPanic("negative shift amount")
+		}
+	}
+	if isShift && bSym && concShift {
+		// case split on the shift amount: keeps every later formula a fixed bit slice
+		c := in.ex.concretize(in, bx, "shift amount")
+		b = Val{c: c}
+		bSym = false
+		if !aSym {
+			return in.intBinop(op, a, b, ta, tb)
 		}
 	}
 	if (op == token.QUO || op == token.REM) && !isBool {
@@ -386,6 +407,8 @@ func (in *Interp) intBinop(op token.Token, a, b Val, ta, tb types.Type) Val {
 	}
 	return Val{x: r}
 }
+
+var concShift = true
 
 func minU(a, b uint64) uint64 {
 	if a < b {
@@ -629,7 +652,13 @@ func (in *Interp) indexAddr(x *ssa.IndexAddr, base, idx Val) Val {
 	}
 	i, sym := in.boundsCheck(idx, x.Index.Type(), n, "IndexAddr")
 	if sym != nil {
-		// fast exit: small ranges become concrete by case split? keep symbolic
+		if kv, ok := in.ex.known[sym]; ok {
+			return Val{x: &Pointer{obj: obj, off: off + int64(kv)*esz}}
+		}
+		if n > 8192 || kindOf(x.Type().Underlying().(*types.Pointer).Elem()) != kScalar {
+			k := int64(in.ex.concretize(in, sym, "index into large array"))
+			return Val{x: &Pointer{obj: obj, off: off + k*esz}}
+		}
 		return Val{x: &Pointer{obj: obj, off: off, idx: sym, stride: esz, n: n}}
 	}
 	return Val{x: &Pointer{obj: obj, off: off + i*esz}}
